@@ -96,13 +96,40 @@ func vOffset(name string) uint64 {
 func vBlockOf(x, i uint64) uint64 { return 2048 + 32*(x%128) + i }
 func vChildOf(s uint64) uint64    { return 96 + (5*s+2)%32 }
 
+// vChildIn: the representative child of directory d at slot s. The root's children differ from every
+// other directory's, so that two directories met by one request never name the same object (an object
+// has one name).
+func vChildIn(d, s uint64) uint64 {
+	if d == 1 {
+		return 96 + (5*s+18)%32
+	}
+	if d >= 96 && d < 128 {
+		// a representative child that is itself a directory has children of its own
+		return 60 + (5*s+2)%32
+	}
+	return vChildOf(s)
+}
+
 // hooks installs the Inv instantiation points.
 func (w *vW) hooks() {
 	ds, mx := uint64(w.sup.DataStart()), uint64(w.sup.MaxBnum())
 	verifrt.OnReturn("github.com/mit-pdos/go-nfsd/inode.Decode", func(ip *inode.Inode) {
-		if w.quiet || verifrt.Appended() {
-			// Inv and the bounds are assumptions about the pre-state only: once the request has
-			// committed something, what it reads back is its own product and nothing is assumed of it
+		if w.quiet {
+			return
+		}
+		if verifrt.Appended() {
+			// A later transaction of the same request (after a helper transaction that finished a pending
+			// shrink), or a later request of a multi-request harness. By induction over transactions (the
+			// step is C04's obligation) the state it starts from satisfies Inv again; the BOUNDS, which
+			// are assumptions about the chosen pre-state only, are not assumed of it.
+			inode.VerifAssumeInvLocal(ip, ds, mx, 1<<40, 1<<40)
+			for i := uint64(0); i < 10; i++ {
+				p := ip.VerifBlks()[i]
+				if !w.symaddr {
+					c := vBlockOf(ip.Inum, i)
+					verifrt.Assume(p == 0 || p == c || (p >= 7000 && p < 7064))
+				}
+			}
 			return
 		}
 		inode.VerifAssumeInvLocal(ip, ds, mx, w.dirSlots, w.lnkMax)
@@ -117,9 +144,11 @@ func (w *vW) hooks() {
 			// bound B_blocks on objects that may be freed inline: at most sizeblocks blocks, or large
 			// enough (>= 600 blocks) that freeing is handed to the background shrinker
 			verifrt.Assume(ip.ShrinkSize <= sb || ip.ShrinkSize >= 600)
+			nb := (ip.Size + 4095) / 4096
+			verifrt.Assume(nb <= sb || nb >= 600)
 			if verifrt.Param("pendingshrink", 1) == 0 {
 				// no shrink pending on the objects this request meets
-				verifrt.Assume(ip.ShrinkSize == (ip.Size+4095)/4096)
+				verifrt.Assume(ip.ShrinkSize <= nb)
 			}
 		}
 		for i := uint64(0); i < 10; i++ {
@@ -202,17 +231,20 @@ func (w *vW) hooks() {
 			}
 		}
 	})
-	// I2 for the entries of indirect blocks
-	verifrt.OnReturn("(*github.com/mit-pdos/go-journal/buf.Buf).BnumGet", func(p uint64) {
-		if verifrt.Appended() {
-			return
-		}
+	// I2 for the entries of indirect blocks (after the first commit: by induction over transactions, see
+	// the Decode hook; fresh blocks may then appear as entries)
+	verifrt.OnReturn("(*github.com/mit-pdos/go-journal/buf.Buf).BnumGet", func(b *buf.Buf, off uint64, p uint64) {
 		verifrt.Assume(p == 0 || (p >= ds && p < mx))
 		if w.symaddr {
+			if verifrt.Appended() {
+				return
+			}
 			w.assumeMarked(p)
 			for _, q := range w.ptrVal {
 				verifrt.Assume(p == 0 || p != q)
 			}
+		} else if verifrt.Appended() {
+			verifrt.Assume(p == 0 || (p >= 7000 && p < mx))
 		} else {
 			// representative range for indirect entries: disjoint from inode slots (2048..6143) and from
 			// fresh allocations (7000..); entries are symbolic within it
@@ -294,10 +326,10 @@ func (w *vW) assumeDir(ip *inode.Inode, g bool) {
 		if w.symaddr {
 			verifrt.Assume(!g || c == 0 || c%32 == (5*s+2)%32 || (s == 1 && c == ip.Inum))
 		} else if s == 1 {
-			cs := vChildOf(s)
+			cs := vChildIn(ip.Inum, s)
 			verifrt.Assume(!g || c == ip.Inum || c == 1 || c == cs)
 		} else {
-			cs := vChildOf(s)
+			cs := vChildIn(ip.Inum, s)
 			verifrt.Assume(!g || c == 0 || c == cs)
 		}
 		// child liveness (I6): Kind != 0, read straight from the inode table
